@@ -38,7 +38,16 @@ fn main()
         }
         i += 1;
     }
-    if let Some(p) = replay_path { std::process::exit(replay(&id, &p)); }
+    if let Some(p) = replay_path
+    {
+        // explicit-state artefacts carry a "kind"; lazy-program artefacts carry a "config"
+        let is_es = std::fs::read_to_string(&p).map(|t| t.contains("\"kind\"")).unwrap_or(false);
+        if is_es { std::process::exit(cobweb_mc::es_checks::replay_es(&id, &p)); }
+        std::process::exit(replay(&id, &p));
+    }
+    if id == "C10" { std::process::exit(cobweb_mc::es_checks::run_c10(tier)); }
+    if id == "C16" { std::process::exit(cobweb_mc::es_more::run_c16(tier)); }
+    if id == "C17" { std::process::exit(cobweb_mc::es_more::run_c17(tier)); }
     let Some(plan) = plan(&id, tier) else { eprintln!("no plan for {id}"); std::process::exit(2); };
     let out = run_plan(plan, tier);
     std::process::exit(out.exit);
